@@ -554,6 +554,14 @@ func foldConstArgs(format string, va []ssa.Value) (string, []ssa.Value) {
 				continue
 			}
 		}
+		if ai < len(va) && verb == 'c' {
+			if k, ok := constInt(stripConvert(stripMakeInterface(va[ai]))); ok && k > 0 && k < 128 && k != '%' {
+				out.WriteByte(byte(k))
+				ai++
+				i++
+				continue
+			}
+		}
 		if ai < len(va) {
 			rest = append(rest, va[ai])
 			ai++
